@@ -1,11 +1,10 @@
 (* C12 proofs, part B: every ThrottleList method preserves the invariant; accounting of held quota. *)
 From Coq Require Import List NArith Bool Lia PeanoNat.
-From LTV Require Import Params_gen.
+From LTV.C12 Require Import ParamsGen.
 From LTV.C12 Require Import Model ProofsA.
 Import ListNotations.
 Local Open Scope N_scope.
 
-Ltac splits := repeat match goal with |- _ /\ _ => split end.
 Ltac simp_tl := cbn [enabled size outst unalloc uu radded minc maxc rslow act inact
                      with_quota with_size set_enabled set_chunks take_radded fst snd] in *.
 
